@@ -1301,11 +1301,27 @@ namespace chaiscript {
               break;
             } else if (catch_block.children.size() == 2 || catch_block.children.size() == 3) {
               const auto name = Arg_List_AST_Node<T>::get_arg_name(*catch_block.children[0]);
+              const auto arg_type = Arg_List_AST_Node<T>::get_arg_type(*catch_block.children[0], t_ss);
 
-              if (dispatch::Param_Types(
-                      std::vector<std::pair<std::string, Type_Info>>{Arg_List_AST_Node<T>::get_arg_type(*catch_block.children[0], t_ss)})
-                      .match(Function_Params{t_except}, t_ss.conversions())
-                      .first) {
+              auto [accepted, needs_conversion]
+                  = dispatch::Param_Types(std::vector<std::pair<std::string, Type_Info>>{arg_type}).match(Function_Params{t_except}, t_ss.conversions());
+
+              if (accepted && needs_conversion) {
+                // The clause names another class than the static type the exception was caught as. A registered base
+                // class relation works in both directions for matching, so make sure this object really is of the
+                // clause's type: 'catch (eval_error e)' must not accept a std::logic_error caught as std::exception.
+                try {
+                  try {
+                    t_ss.conversions()->boxed_type_conversion(arg_type.second, t_ss.conversions().saves(), t_except);
+                  } catch (const chaiscript::exception::bad_boxed_cast &) {
+                    t_ss.conversions()->boxed_type_down_conversion(arg_type.second, t_ss.conversions().saves(), t_except);
+                  }
+                } catch (const chaiscript::exception::bad_boxed_cast &) {
+                  accepted = false;
+                }
+              }
+
+              if (accepted) {
                 t_ss.add_object(name, t_except);
 
                 if (catch_block.children.size() == 2) {
